@@ -19,6 +19,12 @@ def hasPrefix (s : String) : Bool := (s.toList.take 12) == "TROMPELOEIL_".toList
     C++14, C++17 and C++20, every `#define` attributed to a file under /repo/include). -/
 theorem long_macros_clean : (longMacros_all.filter (fun s => !hasPrefix s)) = [] := by decide
 
+/-- **Self-contained prefixed macros**: no `TROMPELOEIL_…` macro of the headers mentions a short alias
+    (`TIMES`, `RETURN`, …) in its replacement list, so every documented statement still compiles when
+    `TROMPELOEIL_LONG_MACROS` removes the aliases (table regenerated from the `#define`s of /repo). -/
+theorem long_macro_bodies_self_contained : shortUses = [] := by decide
+
+
 /-! ### clause legality -/
 
 /-- the order on type-states: every flag that is set stays set (the call limit aside). -/
